@@ -179,6 +179,17 @@ def format_oracle(ctx, dense, stride_n, max_idx, kinds=None, max_size=120000):
                 attempts(ctx, kind, sample, "delete", lambda t: (lambda: kind.open(io.BytesIO(grown)).delete(t)), grown, dense, stride_n, max_idx)
             except mutagen.MutagenError:
                 pass
+            # the module-level delete function of the format
+            fn = kind.module_delete()
+            if fn is not None:
+                try:
+                    exp4, _ = canon_after(kind, grown, lambda b: fn(b))
+                    if exp4 == [] and kind.style in ("ape",):
+                        exp4 = None
+                    _expect[(kname, sample, "module-delete")] = exp4
+                    attempts(ctx, kind, sample, "module-delete", lambda t: (lambda: fn(t)), grown, dense, stride_n, max_idx)
+                except mutagen.MutagenError:
+                    pass
 
 # ---------------------------------------------------------------- correspondence of the faulty file monad
 def run_model(ctx, fn, data, args, buf, fault, short):
@@ -227,18 +238,70 @@ def correspondence(ctx, maxlen):
                                          {"fn": fn, "n": n, "args": list(args), "buf": buf, "fault": k})
 
 
+def adif_multi_pce(n):
+    """an ADIF header with n program config elements (own bit writer, ISO 13818-7), variable rate"""
+    bits = []
+
+    def put(v, w):
+        bits.extend(((v >> (w - 1 - i)) & 1) for i in range(w))
+    put(0, 1); put(0, 1); put(0, 1); put(1, 1); put(128000, 23); put(n - 1, 4)
+    for k in range(n):
+        put(k, 4); put(1, 2); put(4, 4)                       # tag, object type, sampling frequency index
+        put(1, 4); put(0, 4); put(0, 4); put(0, 2); put(0, 3); put(0, 4)
+        put(0, 1); put(0, 1); put(0, 1)                       # no mixdown elements
+        put(1, 1); put(0, 4)                                  # one front element: a channel pair, tag 0
+        while len(bits) % 8:
+            bits.append(0)
+        put(3, 8)
+        for c in b"pce":
+            put(c, 8)
+    while len(bits) % 8:
+        bits.append(0)
+    by = bytes(int("".join(map(str, bits[i:i + 8])), 2) for i in range(0, len(bits), 8))
+    return b"ADIF" + by + b"\x00" * 64
+
+
+def opener_loads(ctx, dense, stride_n, max_idx):
+    """every opener of fuzzing/fuzztools (formats without tag support included) loading its own samples under a fault at
+    every call index and under every short-read budget"""
+    from props import c04
+    ops = c04.openers()
+    extra = [("synth-adif-2pce.aac", adif_multi_pce(2)), ("synth-adif-3pce.aac", adif_multi_pce(3))]
+    seen = set()
+    for name, data in list(c04.seeds()) + extra:
+        own = c04.own_opener(name, ops) if not name.startswith("synth-adif") else "AAC"
+        if own is None or len(data) > 120000:
+            continue
+        ext = name.rsplit(".", 1)[-1]
+        if (own, ext) in seen and not name.startswith("synth"):
+            continue            # one sample per opener and extension
+        seen.add((own, ext))
+        try:
+            ops[own](io.BytesIO(data))
+        except Exception:
+            continue
+
+        class K:
+            pass
+        K.name = "opener:" + own
+        attempts(ctx, K, name, "load", lambda t, own=own: (lambda: ops[own](t)), data, dense, stride_n, max_idx)
+
+
 def run(ctx):
     if ctx.thorough:
         correspondence(ctx, 5)
         format_oracle(ctx, 4096, 400, None)
+        opener_loads(ctx, 4096, 400, None)
     else:
         correspondence(ctx, 3)
         format_oracle(ctx, 48, 24, 150)
+        opener_loads(ctx, 64, 24, 150)
 
 
 def search(ctx, broken):
     before = len(ctx.violations)
     format_oracle(ctx, 256, 100, 600)
+    opener_loads(ctx, 256, 100, 600)
     ctx.notes["search"] = "fault enumeration over all kinds/samples/operations found %d failing schedules" % (len(ctx.violations) - before)
 
 
